@@ -19,6 +19,12 @@ THEOREMS = [
     "Ural.Props.C13.under_of_stems_prefix_sa",
     "Ural.Props.C13.underBy_lower_of_under",
     "Ural.Props.C13.clean_stems_ok",
+    # the parser inside the model (URL strings)
+    "Ural.Props.C13.lru_prefix_of_under_string",
+    "Ural.Props.C13.lru_prefix_of_under_string_partial",
+    "Ural.Props.C13.under_of_stems_prefix_string",
+    "Ural.Props.C13.url_to_lru_prefix_iff",
+    "Ural.Props.C12.serialization_string",
     "Ural.Lru.keyStems_prefix_iff",
     "Ural.Lru.clean_lruStems",
     "Ural.Props.C12.stems_wellformed",
@@ -47,7 +53,11 @@ RULE = (
     "the independent Python reading, prefix of cleaned stems, prefix of raw stems, string prefix of "
     "url_to_lru, string prefix of the cleaned serialisation, names-hypothesis. Non-trivial case = "
     "the batch contains a pair with v strictly under u and a pair not under u; distinct = distinct "
-    "(u, batch, mode). Pair counts are in the distribution (pairs, pairs-under, pairs-prefix, ...)."
+    "(u, batch, mode). Pair counts are in the distribution (pairs, pairs-under, pairs-prefix, ...). "
+    "String-level tie (cases of kind 'parse', right after the corpus): EVERY URL a pair can be made of (corpus, "
+    "mini universe, the 7,600-URL universe and its 'me@' userinfo variant: about 15,400 URLs, enumerated) goes through "
+    "the model's own parser and the string-level pipeline of C12 (ops parse_url, lru_url: urlsplit(ensure_protocol(u)) "
+    "+ accessors, lru_stems(u), url_to_lru(u), both modes) and must agree with CPython / ural."
 )
 EXHAUSTIVE = {
     "quick": "all 82,944 ordered pairs of the 288-URL mini universe (2 schemes x 2 ports x hosts {com, a.com, www.a.com, co.uk, a.co.uk, uk} x paths {'', '/', '/a', '/a/b'} x extras {'', '?q=1', '#f'}) x suffix_aware in {False, True}",
@@ -59,7 +69,8 @@ ASSUMPTIONS = [
     "reading: 'subdomain' = whole-label suffix of the dotted host between DNS names (an IPv4 literal / bracketed literal has no subdomains: hypothesis NamesOrEqual); 'extends / may add' presuppose that u has nothing later in the hierarchy host -> path -> query -> fragment; the forward law is demanded for u without userinfo (userinfo stems come last; the quantifier's universe has none); empty path stems aside = clean_trailing_path on both sides; suffix-aware converse compares hosts lower-cased",
 ]
 UNPROVED = (
-    "forward direction with suffix_aware=True when the two hosts do not have the same public-suffix split "
+    "the *_string theorems state the laws for URL strings with the modelled parser inside (the Lean parser is compared "
+    "with CPython on every URL of the universe, not proved equal to it); forward direction with suffix_aware=True when the two hosts do not have the same public-suffix split "
     "(ancestor inside the public suffix, e.g. http://uk vs http://a.co.uk): false by design (theorem "
     "fullForwardSuffixAware_false, known finding KF-C13-1); the region is counted in the distribution as "
     "'pairs-kf-region' and explored by the oracle only for the converse"
@@ -161,9 +172,44 @@ def near(rng, s, h, p, path, extra):
     return s + "://" + auth + h2 + p + path2 + extra2
 
 
+def universe_urls():
+    """every URL a pair of the stream can be made of: corpus, mini universe, the 7,600-URL universe,
+    and the userinfo variant `near` draws"""
+    seen = set()
+    for c in CORPUS:
+        for x in [c["u"]] + list(c["vs"]):
+            if x not in seen:
+                seen.add(x)
+                yield x
+    for x in MINI:
+        if x not in seen:
+            seen.add(x)
+            yield x
+    for s_ in SCHEMES:
+        for h in HOSTS:
+            for p_ in PORTS:
+                for pa in PATHS:
+                    for e in EXTRAS:
+                        for auth in ("", "me@"):
+                            x = s_ + "://" + auth + h + p_ + pa + e
+                            if x not in seen:
+                                seen.add(x)
+                                yield x
+
+
 def cases(rng, tier):
     for c in CORPUS:
         yield dict(c)
+    # string-level tie: the model's own parser (+ lru_stems / url_to_lru as functions of the string)
+    # against CPython / ural on every URL of the universe
+    batch = []
+    for x in universe_urls():
+        batch.append(x)
+        if len(batch) == 40:
+            yield {"k": "parse", "urls": batch}
+            batch = []
+    if batch:
+        yield {"k": "parse", "urls": batch}
     for sa in (False, True):
         for u in MINI:
             for i in range(0, len(MINI), 96):
@@ -252,7 +298,20 @@ def is_prefix(a, b):
     return b[: len(a)] == a
 
 
+def _parse_plan(case):
+    out = []
+    for x in case["urls"]:
+        out.extend(B.string_plan({"url": x, "sa": [False, True]}))
+    return out
+
+
+def canon(op, out):
+    return B.canon(op, out)
+
+
 def ops(case):
+    if case.get("k") == "parse":
+        return [o for o, _ in _parse_plan(case)]
     pu = B.cparse(case["u"])
     if pu is None:
         return []
@@ -266,6 +325,8 @@ def ops(case):
 
 
 def impl(case):
+    if case.get("k") == "parse":
+        return [f() for _, f in _parse_plan(case)]
     pu = B.cparse(case["u"])
     if pu is None or any(B.cparse(v) is None for v in case["vs"]):
         return []
@@ -350,6 +411,8 @@ def pair_verdict(case, v):
 
 
 def oracle(case):
+    if case.get("k") == "parse":
+        return None
     for v in case["vs"]:
         f = pair_verdict(case, v)
         if f:
@@ -363,7 +426,19 @@ def kf_ancestor_inside_suffix(case, failure):
     return bool(case.get("sa")) and failure.startswith("forward:") and failure.endswith(KF_MARK)
 
 
+_stats_memo = [None, None]
+
+
 def _pair_stats(case):
+    # nontrivial() and classify() are called one after the other on the same case object
+    if _stats_memo[0] is case:
+        return _stats_memo[1]
+    r = _pair_stats_(case)
+    _stats_memo[0], _stats_memo[1] = case, r
+    return r
+
+
+def _pair_stats_(case):
     pu = B.cparse(case["u"])
     if pu is None:
         return None
@@ -393,6 +468,8 @@ def _pair_stats(case):
 
 
 def nontrivial(case):
+    if case.get("k") == "parse":
+        return None
     st = _pair_stats(case)
     if st is None or not (st["strict-under"] and st["not-under"]):
         return None
@@ -400,6 +477,13 @@ def nontrivial(case):
 
 
 def classify(case):
+    if case.get("k") == "parse":
+        labs = ["kind=parse"]
+        for x in case["urls"]:
+            pr = B.cparse(x)
+            ok = pr is not None and B.wf_netloc(pr[0][1]) and "|" not in x
+            labs.append("parse-url:" + ("in-grammar(wfNetloc,no-bar)" if ok else "outside-grammar"))
+        return labs
     st = _pair_stats(case)
     labs = ["sa=%d" % case["sa"]]
     if st is None:
